@@ -57,7 +57,12 @@ def run_engine(tier):
 
 def case_of(o, name):
     delta = diffstate(o["from"], o["to"])
-    return {"part": "engine", "formula": name, "edit_fields": ",".join(sorted({x[1] for x in delta})), "edit": delta}
+    # a table whose only edit is the AUTOINCREMENT attribute (same key)
+    by_table = {}
+    for t, k, _, _ in delta:
+        by_table.setdefault(t, set()).add(k)
+    toggled = any(ks == {"autoinc"} for ks in by_table.values())
+    return {"part": "engine", "formula": name, "edit_fields": ",".join(sorted({x[1] for x in delta})), "autoincrement_only_edit_on_a_table": toggled, "edit": delta}
 
 
 def detail_of(o):
